@@ -167,6 +167,11 @@ Proof.
   - unfold create_symlink.
     apply (localf_bind (unlink_if_there (nm :: p)) (unlink_if_there p)); [apply localf_unlink_if, Hp|].
     apply (localf_bind (symlink pr tg (nm :: p)) (symlink pr tg p)); [apply localf_entry, Hp|].
+    apply (localf_bind (fun s => if no_same_owner o then FOk s
+                                 else dof s2 <- chown (nm :: p) (m_uid mt) (m_gid mt) s; set_all_xattrs (nm :: p) xs s2)
+                       (fun s => if no_same_owner o then FOk s
+                                 else dof s2 <- chown p (m_uid mt) (m_gid mt) s; set_all_xattrs p xs s2));
+      [|apply localf_set_times].
     apply localf_if; [apply localf_ok|].
     apply (localf_bind (chown (nm :: p) _ _) (chown p _ _)); [apply localf_on_meta|apply localf_xattrs].
   - unfold create_device.
@@ -452,7 +457,7 @@ Qed.
 
 Lemma expect_link a tg :
   expect pr o (TLink a tg) =
-  Some (FLink (mkFMeta 511 (fst (exp_owner pr o a)) (snd (exp_owner pr o a)) Now (exp_xattrs o a)) tg).
+  Some (FLink (mkFMeta 511 (fst (exp_owner pr o a)) (snd (exp_owner pr o a)) (exp_time a) (exp_xattrs o a)) tg).
 Proof. cbn [expect]. destruct (exp_owner pr o a). reflexivity. Qed.
 
 Definition exp_dev_perm (a : attrs) : N :=
@@ -485,6 +490,32 @@ Proof.
   unfold fresh. cbn [meta_of m_uid m_gid m_mtime fm_perm]. rewrite (land_lor_perm (t_mode a)). fold (perm_of a).
   destruct (no_same_owner o); destruct (no_same_permissions o); destruct (t_mtime a =? 0);
     cbn [set_perm set_owner set_xattrs set_mtime fm_perm fm_uid fm_gid fm_mtime fm_xattrs fst snd chown_clear];
+    rewrite ?ins_all_xs; reflexivity.
+Qed.
+
+(* the tail of CreateSymlink is SetFilePermissions without the chmod, then the times *)
+Lemma link_tail p mt xs s1 :
+  (dof s2 <- (if no_same_owner o then FOk s1
+              else dof s2 <- chown p (m_uid mt) (m_gid mt) s1; set_all_xattrs p xs s2);
+   set_times p mt s2) =
+  (dof s2 <- set_permissions (mkLopts (no_same_owner o) true) p mt xs s1; set_times p mt s2).
+Proof.
+  unfold set_permissions. cbn [no_same_owner no_same_permissions].
+  destruct (no_same_owner o); cbn [bindf]; [reflexivity|].
+  destruct (chown p (m_uid mt) (m_gid mt) s1) as [s'|e]; cbn [bindf]; [|reflexivity].
+  destruct (set_all_xattrs p xs s') as [s''|e]; reflexivity.
+Qed.
+
+Lemma apply_perms_link a tg :
+  apply_perms (mkLopts (no_same_owner o) true) (FLink (mkFMeta 511 (p_uid pr) (p_gid pr) Now []) tg)
+              (meta_of a) (xs_of a) (mkFMeta 511 (p_uid pr) (p_gid pr) Now []) =
+  mkFMeta 511 (fst (exp_owner pr o a)) (snd (exp_owner pr o a)) (exp_time a) (exp_xattrs o a).
+Proof.
+  unfold apply_perms, exp_owner, exp_time, exp_xattrs, meta_chown.
+  cbn [no_same_owner no_same_permissions meta_of m_uid m_gid m_mtime fm_perm].
+  change (chown_clear (FLink (mkFMeta 511 (p_uid pr) (p_gid pr) Now []) tg) 511) with 511.
+  destruct (no_same_owner o); destruct (t_mtime a =? 0);
+    cbn [set_perm set_owner set_xattrs set_mtime fm_perm fm_uid fm_gid fm_mtime fm_xattrs fst snd];
     rewrite ?ins_all_xs; reflexivity.
 Qed.
 
@@ -524,13 +555,9 @@ Proof.
     rewrite entry_op_single, (in_dir_fresh nm _ m ents Hf). cbn [bindf].
     rewrite entry_op_single, (in_dir_fresh nm _ m ents Hf). cbn [bindf].
     fold (child (touched m) ents nm (FLink (mkFMeta 511 (p_uid pr) (p_gid pr) Now []) tg)).
-    rewrite expect_link. unfold exp_owner, exp_xattrs.
-    destruct (no_same_owner o); cbn [bindf result_dir fst snd]; [reflexivity|].
-    rewrite (localf_on_meta (touched m) ents nm Hf [] _ _ : chown [nm] _ _ (child _ _ _ _) = _).
-    unfold chown. rewrite on_meta_self. cbn [lift_child bindf].
-    rewrite (localf_xattrs (touched m) ents nm Hf [] (xs_of a) _). rewrite xattrs_self. cbn [lift_child].
-    cbn [fmeta_of with_meta set_owner set_perm set_xattrs fm_perm fm_uid fm_gid fm_mtime fm_xattrs meta_of m_uid m_gid].
-    rewrite ins_all_xs. reflexivity.
+    rewrite link_tail.
+    rewrite (perms_child (touched m) ents nm _ (meta_of a) (xs_of a) _ Hf). cbn [bindf fmeta_of with_meta].
+    rewrite apply_perms_link. rewrite expect_link. reflexivity.
   - (* device *)
     destruct Hwf as (Ha & Hty). cbn [unique_tree] in Hun. cbn [nodes_of untar untar_node].
     unfold create_device, unlink_if_there, unlink, mknod.
@@ -676,7 +703,7 @@ Definition has_archived_child (ch : list (bytes * tree)) : Prop :=
 Definition mtime_kept (c : tree) : Prop :=
   t_mtime (tree_attrs c) <> 0 /\
   match c with
-  | TFile _ _ | TDev _ _ => True
+  | TFile _ _ | TDev _ _ | TLink _ _ => True
   | TDir _ ch => ~ has_archived_child ch
   | _ => False
   end.
@@ -724,6 +751,7 @@ Proof.
   - rewrite expect_dir in E. inversion E; subst. cbn [fmeta_of fm_mtime tree_attrs] in *.
     apply (exp_kids_nil default_opts) in Hk. rewrite Hk. exact Ht.
   - rewrite expect_file in E. inversion E; subst. exact Ht.
+  - rewrite expect_link in E. inversion E; subst. exact Ht.
   - rewrite expect_dev in E. inversion E; subst. exact Ht.
 Qed.
 
@@ -775,14 +803,16 @@ Proof.
   exfalso. apply (proj1 (exp_kids_nil o ch') E). exact Hk.
 Qed.
 
-(* a symlink always comes back with the time of extraction *)
-Theorem symlink_mtime_lost o a ch r p a' tg :
+(* a symlink comes back with its own mtime (since "fix: untar restores the modification time of
+   symlinks"; before it, every link kept the time of extraction: see untar_prefix) *)
+Theorem symlink_mtime_restored o a ch r p a' tg :
   wf_tree (TDir a ch) -> unique_tree (TDir a ch) -> unpacked o (TDir a ch) r ->
-  tree_at p (TDir a ch) = Some (TLink a' tg) ->
-  exists m, lookup p r = Some (FLink m tg) /\ fm_mtime m = Now.
+  tree_at p (TDir a ch) = Some (TLink a' tg) -> t_mtime a' <> 0 ->
+  exists m, lookup p r = Some (FLink m tg) /\ fm_mtime m = Stamp (t_mtime a').
 Proof.
-  intros Hwf Hun Hr Hat. pose proof (unpacked_expect o a ch r Hwf Hun Hr) as Ee.
-  rewrite (lookup_expect pr o p _ r _ Hun Ee Hat), expect_link. eexists. split; reflexivity.
+  intros Hwf Hun Hr Hat Hnz. pose proof (unpacked_expect o a ch r Hwf Hun Hr) as Ee.
+  rewrite (lookup_expect pr o p _ r _ Hun Ee Hat), expect_link. eexists. split; [reflexivity|].
+  cbn [fm_mtime]. unfold exp_time. destruct (t_mtime a' =? 0) eqn:E; [apply N.eqb_eq in E; contradiction|reflexivity].
 Qed.
 
 (* an object whose mtime is the epoch comes back with the time of extraction *)
@@ -797,7 +827,7 @@ Proof.
   destruct c; try discriminate; cbn [tree_attrs] in Ht.
   - rewrite expect_dir. eexists. split; [reflexivity|]. cbn [fmeta_of fm_mtime]. rewrite Ht. destruct (exp_kids pr o children); reflexivity.
   - rewrite expect_file. eexists. split; [reflexivity|]. exact Ht.
-  - rewrite expect_link. eexists. split; reflexivity.
+  - rewrite expect_link. eexists. split; [reflexivity|]. exact Ht.
   - rewrite expect_dev. eexists. split; [reflexivity|]. exact Ht.
 Qed.
 
@@ -817,6 +847,29 @@ Proof.
 Qed.
 
 End Restored.
+
+(* ---------- fifos and sockets: the result is that of the tree without them ---------- *)
+
+Lemma expect_prune pr o : forall t, expect pr o (prune t) = expect pr o t.
+Proof.
+  induction t as [a ch IH|a d|a tg|a r|a] using tree_ind'; try reflexivity.
+  cbn [prune]. rewrite !expect_dir.
+  assert (Hk : exp_kids pr o (flat_map (fun p => match p with (nm, c) => if archived c then [(nm, prune c)] else [] end) ch)
+               = exp_kids pr o ch).
+  { induction ch as [|[nm c] r IHr]; [reflexivity|].
+    inversion IH as [|? ? Hc Hr]; subst. cbn [snd] in Hc. cbn [flat_map].
+    unfold exp_kids at 2. cbn [flat_map]. fold (exp_kids pr o r).
+    destruct (archived c) eqn:Ea.
+    - cbn [app]. unfold exp_kids at 1. cbn [flat_map]. rewrite Hc.
+      change (flat_map _ (flat_map _ r)) with
+        (exp_kids pr o (flat_map (fun p => match p with (nm, c) => if archived c then [(nm, prune c)] else [] end) r)).
+      rewrite (IHr Hr). reflexivity.
+    - destruct c; try discriminate. cbn [app expect]. apply IHr, Hr. }
+  rewrite Hk. reflexivity.
+Qed.
+
+Theorem fifos_left_out t : tar_of_tree (prune t) = tar_of_tree t /\ nodes_of [] (prune t) = nodes_of [] t.
+Proof. split; [apply tar_of_tree_prune|apply nodes_of_prune]. Qed.
 
 (* ---------- a concrete tree (used by the Examples of Props/C05.v) ---------- *)
 
